@@ -162,6 +162,8 @@ def parseExpr3F : Nat → SExp → Except String CSem2.Expr3
       | .list [.atom "neg", t, e] => do pure (.neg (← parseTy t) (← parseExpr3F n e))
       | .list [.atom "cond", t, c, a, b] => do
         pure (.cond (← parseTy t) (← parseExpr3F n c) (← parseExpr3F n a) (← parseExpr3F n b))
+      | .list [.atom "comma", t, a, b] => do
+        pure (.comma (← parseTy t) (← parseExpr3F n a) (← parseExpr3F n b))
       | .list [.atom op, t, l, r] =>
         match parseOp op with
         | some o => do pure (.bin o (← parseTy t) (← parseExpr3F n l) (← parseExpr3F n r))
@@ -247,6 +249,7 @@ def setXb3 (cnts : List Nat) : CSem2.Expr3 → CSem2.Expr3
   | .neg t e => .neg t (setXb3 cnts e)
   | .bin o t l r => .bin o t (setXb3 cnts l) (setXb3 cnts r)
   | .cond t c a b => .cond t (setXb3 cnts c) (setXb3 cnts a) (setXb3 cnts b)
+  | .comma t a b => .comma t (setXb3 cnts a) (setXb3 cnts b)
   | e => e
 
 def setXb (cnts : List Nat) (wb : Nat → Nat) : CSem2.Stmt → CSem2.Stmt
